@@ -64,6 +64,10 @@ def conds_attr(tier):
     for f in (FAULTS[:3] if tier == "quick" else FAULTS):
         cs.append(xhrun.Cond("harness_tb", "c19_attr", {"XH_FAULT": f, "XH_BASE": "fresh", "XH_DMAX": dmax, "XH_WARM": 1}, timeout=300,
                              label=f"c19_attr_{f}_fresh_warm", note=KIND[f]))
+    # the user's plan-building module has a name that starts like the library's ("uberjob_pipeline"): still the user's line
+    for f in (FAULTS[:2] if tier == "quick" else FAULTS):
+        cs.append(xhrun.Cond("harness_tb", "c19_attr", {"XH_FAULT": f, "XH_BASE": "fresh", "XH_DMAX": dmax, "XH_MODNAME": "uberjob_pipeline"}, timeout=300,
+                             label=f"c19_attr_{f}_fresh_module_named_like_library", note=KIND[f]))
     if tier != "quick":
         for f in FAULTS:
             cs.append(xhrun.Cond("harness_tb", "c19_attr", {"XH_FAULT": f, "XH_BASE": "fresh", "XH_DMAX": 6, "XH_ORDER": "fifo"},
